@@ -221,6 +221,16 @@ def run(ck):
     for k, t in enumerate(targets):
         for q in rnd.sample(queries, 25 if ck.quick else 80) + rnd.sample(two, 6 if ck.quick else 20):
             mc.append({'key': f'{q}|{t}', 'q': q, 't': t, 'thiele': k % 2 == 0})
+    # element classes against the whole table: every element as a lone atom and as X(C)C (quick: every third element and the class borders)
+    from chython.periodictable import Element
+    border = {1, 2, 3, 4, 5, 10, 13, 14, 31, 32, 33, 34, 35, 36, 43, 50, 51, 52, 53, 54, 83, 84, 85, 86, 87, 113, 116, 117, 118}
+    for z in range(1, 119):
+        if ck.quick and z % 3 and z not in border:
+            continue
+        sym = Element.from_atomic_number(z)().atomic_symbol
+        for t in (f'[{sym}]', f'C[{sym}]C'):
+            for q in ('[M]', '[A]', '[M;D2]', '[M,Se]'.replace('[M,Se]', '[Se,Tc,Ge,Sn]'), f'[{sym}]'):
+                mc.append({'key': f'{q}|{t}', 'q': q, 't': t, 'thiele': False})
     mc = ck.select('matching', mc)
     if mc:
         res = vlib.pmap('checks.c08', 'match_case', mc)
